@@ -225,7 +225,54 @@ func gvcHistory(name string, fs Filesys, fn string) string {
 	m.names[[2]string{"d1", "c"}] = m.next
 	m.data[m.next] = nil
 	m.next++
-	return checkAll("after AtomicCreate")
+	if s := checkAll("after AtomicCreate"); s != "" {
+		return s
+	}
+	// replacing a name installs a new file: other links to the old file keep the old contents
+	old1 := []byte("old-contents")
+	fs.AtomicCreate("d1", "v", old1)
+	iv := m.next
+	m.next++
+	m.names[[2]string{"d1", "v"}] = iv
+	m.data[iv] = append([]byte(nil), old1...)
+	if !fs.Link("d1", "v", "d2", "vlink") {
+		return name + ": Link(d1/v, d2/vlink) returned false"
+	}
+	m.names[[2]string{"d2", "vlink"}] = iv
+	fs.AtomicCreate("d1", "v", []byte("NEW"))
+	m.names[[2]string{"d1", "v"}] = m.next
+	m.data[m.next] = []byte("NEW")
+	m.next++
+	if s := checkAll("after AtomicCreate over a name that has another link"); s != "" {
+		return s
+	}
+	// deleting files and creating new ones never disturbs the files that remain
+	for _, n := range []string{"k1", "k2", "k3"} {
+		f, _, s := create("d2", n)
+		if s != "" {
+			return s
+		}
+		fs.Append(f.f, []byte("data of "+n))
+		m.data[f.ino] = []byte("data of " + n)
+		fs.Close(f.f)
+	}
+	fs.Delete("d2", "k1")
+	delete(m.names, [2]string{"d2", "k1"})
+	fs.Delete("d2", "vlink")
+	delete(m.names, [2]string{"d2", "vlink"})
+	for _, n := range []string{"k4", "k5"} {
+		f, _, s := create("d2", n)
+		if s != "" {
+			return s
+		}
+		fs.Append(f.f, []byte("later "+n))
+		m.data[f.ino] = []byte("later " + n)
+		fs.Close(f.f)
+		if s := checkAll("after Delete and Create(" + n + ")"); s != "" {
+			return s
+		}
+	}
+	return ""
 }
 
 func gvcDirFs(t *testing.T) (DirFs, string) {
